@@ -764,6 +764,9 @@ PROPS["C11"] = dict(
 # ---------------------------------------------------------------------------- C13
 def pred_c13(line, st):
     op, a, r = toks(line)
+    if op == "prop.aio.backpressure":
+        st["backpressure_sleeps"] = st.get("backpressure_sleeps", 0) + int(a[3])
+        return None if r[0] == "exercised" else "harness: the back-pressure scenario never filled the sender's pipe"
     if op == "prop.aio.partial-write":
         return "a refused Send() nevertheless wrote bytes to the link"
     if op != "prop.aio":
@@ -802,7 +805,7 @@ PROPS["C13"] = dict(
                "and it is complete after finitely many calls; accepted messages always fit the reassembly buffer; a bad tag is never delivered and stops the link; a delivered message carried a tag valid for the current sequence number (forgery reduction). "
                "Correspondence: the real select-based objects on harness-owned pipes, every Send and every Receive(timeout 0) call recorded with the state before/after and the MAC/cipher oracle answers (interposed libgcrypt), fragmentation schedules and wire tampering; "
                "the non-blocking class and the chunked modes are checked by the whole-scenario predicate only (delivered = sent; under tampering with authentication: a prefix).",
-    level_note=LEVEL_NOTE + " MAC unforgeability and cipher secrecy are assumed; real select()/EAGAIN timing is not modelled (the harness forces select time-outs to zero and never lets a write block).",
+    level_note=LEVEL_NOTE + " MAC unforgeability and cipher secrecy are assumed; real select() timing is not modelled (the harness forces select time-outs to zero); a full pipe (EAGAIN) of the non-blocking class is exercised by a back-pressure scenario in which the sender's sleep() is turned into receiver progress.",
     assumptions=["HMAC unforgeability, AES-CFB/CTR secrecy", "partial: chunked modes and aiounicast_nonblock are not modelled in Lean (scenario predicate on the real classes only)",
                  "known finding F13: the IV of an encrypted link is not covered by the MAC"],
 )
@@ -1260,7 +1263,7 @@ PROPS["C15"] = dict(
     module="TmcgProps.C15",
     areas=[("dkg", {"quick": 10, "thorough": 60}, ["--kind", "gen", "--par", "4"], "fast"),
            ("dkg", {"quick": 8, "thorough": 40}, ["--kind", "vss", "--par", "4"], "fast")],
-    obligations=[("Tmcg.C15." + n, "full") for n in ["qual_agree'", "honest_in_qual'", 'share_check', 'share_check_iff', 'feldman_check', 'lagrange0_val', 'lagrange0_unique', 'interpolatePolynom_val', 'vss_reconstruct_honest', 'interpolate_secret', 'interpolate_secret_unique', 'share_matches_vk', 'checkKey_of_checks', 'vssRecv1_complains', 'vssRecv1_honest_dealer', 'genCheck4_sound', 'genReadAnswers_sound', 'genReadAnswers_answered', 'genResolveGo_share_valid', 'genResolve_qual', 'mkGrp_valid']],
+    obligations=[("Tmcg.C15." + n, "full") for n in ["qual_agree'", "honest_in_qual'", 'share_matches_vk_run', 'checkKey_run', 'share_check', 'share_check_iff', 'feldman_check', 'lagrange0_val', 'lagrange0_unique', 'interpolatePolynom_val', 'vss_reconstruct_honest', 'interpolate_secret', 'interpolate_secret_unique', 'share_matches_vk', 'checkKey_of_checks', 'vssRecv1_complains', 'vssRecv1_honest_dealer', 'genCheck4_sound', 'genReadAnswers_sound', 'genReadAnswers_answered', 'genResolveGo_share_valid', 'genResolve_qual', 'mkGrp_valid']],
     predicate=pred_c15,
     level_text="Theorems in Lean 4 about a model of PedersenVSS::Share/Reconstruct and GennaroJareckiKrawczykRabinDKG::Generate as synchronous rounds over n parties with coin lists and deviation scripts: "
                "for ALL scripts of at most t other parties every honest party ends with the same QUAL and no honest party is disqualified; shares of the committed polynomials satisfy the share equations (iff opening), "
@@ -1268,7 +1271,8 @@ PROPS["C15"] = dict(
                "an honest dealer's secret is reconstructed, a bad share is complained about, published shares are verified and unanswered complaints disqualify. "
                "Correspondence: the real classes as n = 2..7 forked parties over pipes with the real reliable broadcast (virtual clock), honest runs and 30 deviation kinds; the model recomputes every party's final state. "
                "An independent predicate checks agreement on QUAL/y/v_i, g^x_i = v_i, interpolation of every (t+1)-subset, VSS consistency on the real outputs. "
-               "Partial: run-level success/key agreement for runs WITH reconstruction are checked by the predicate only; share refresh (CGJKR) is not covered.",
+               "Run level: for all scripts of at most t others, every honest party that finishes without a reconstruction has g^x_i = v_i and CheckKey true. "
+               "Partial: Generate-succeeds and key agreement for runs WITH reconstruction are checked by the predicate only; share refresh (CGJKR) is not covered.",
     level_note=LEVEL_NOTE + " The reliable broadcast is abstracted to a consistent per-sender FIFO (property C14); synchrony as in the property's quantifier; n < 2^64.",
     assumptions=["synchronous-round abstraction of the broadcast and of time-outs (a late message = a missing message)",
                  "partial: share refresh (CanettiGennaroJareckiKrawczykRabinASTC) not covered; Generate-succeeds and key agreement for runs with reconstruction: predicate on real runs only",
